@@ -15,6 +15,7 @@ including both end points and the thresholds +-1e-9, python/numpy scalar types, 
 several size arguments, library drivers (is_ppt, get_ppt_boundary, the repository's fast tests in thorough).
 """
 import contextlib
+import copy
 import importlib.util
 import math
 import os
@@ -50,6 +51,8 @@ ASSUMPTIONS = [
     'Bell(i) in the usual order Phi+,Phi-,Psi+,Psi-; Wtype coefficient order and the orientation of q in '
     'get_2qutrit_Antoine2022 are not fixed by the docstrings: either natural convention is accepted',
     'UPB sizes are those of the cited papers / the QETLAB UPB page; unextendibility is only spot-checked (inconclusive-only)',
+    'size arguments documented as `int` are driven as python ints and signed numpy integers of >= 32 bits; unsigned and 8/16-bit numpy integers are outside the domain '
+    '(numpy wraps them and promotes them to float16: get_Werner_GME(np.uint32(2), 0.75) == 0.0 because 1-d*d wraps, get_chebshev_orthonormal(np.uint8(4), ..) is float16-accurate)',
     'closest separable states used for the REE comparisons: Werner(d,1/d) and Isotropic(d,1/(d+1)) (known analytically)',
 ]
 TECHNIQUE = ('runtime monitoring: postconditions on every catalogue constructor, compared with textbook definitions written '
@@ -64,6 +67,7 @@ DECIDING = [
     'entangle.load_upb', 'entangle.upb_to_bes', 'entangle.get_upb_product', 'entangle.upb.fourier_matrix',
     'utils.get_tetrahedron_POVM', 'unique_determine.get_chebshev_orthonormal',
     'maximally_coherent_state/return_dm',
+    'argument-mutation', 'history/repeated-call', 'history/forward-reverse', 'history/upb-order', 'history/work-buffer', 'input-kinds',
 ]
 
 TOL = 1e-12       # values of catalogue objects (closed-form amplitudes: a few ulp)
@@ -91,12 +95,58 @@ NOT_COVERED = {
 
 def shards(tier, seed):
     ret = [{'name': 'kets'}, {'name': 'werner'}, {'name': 'isotropic'}, {'name': 'families'}, {'name': 'upb-fixed'},
-           {'name': 'upb-sized'}, {'name': 'povm-bases'}, {'name': 'realistic'}]
+           {'name': 'upb-sized'}, {'name': 'povm-bases'}, {'name': 'realistic'}, {'name': 'histories'}, {'name': 'input-kinds'}]
     if tier == 'thorough':
         ret += [{'name': 'upb-large'}, {'name': 'sixparam'}, {'name': 'generic-gme', 'budget_s': 200}, {'name': 'generic-eof', 'budget_s': 200},
                 {'name': 'repo-tests', 'budget_s': 200},
                 {'name': 'werner-hi'}, {'name': 'isotropic-hi'}, {'name': 'cheb-hi'}]
     return ret
+
+
+def snap(o, _depth=0):
+    """copy of an argument / result (arrays and nested lists of arrays copied, everything else by reference)."""
+    if isinstance(o, np.ndarray):
+        return np.array(o, copy=True, order='K')
+    if isinstance(o, (list, tuple)) and _depth < 4 and len(o) <= 256:
+        return type(o)(snap(t, _depth + 1) for t in o)
+    return o
+
+
+def same(a, b, tol=0.0, _depth=0):
+    """equal values (arrays: same shape, kind of dtype and entries; NaN == NaN)."""
+    if isinstance(a, np.ndarray) or isinstance(b, np.ndarray):
+        if not (isinstance(a, np.ndarray) and isinstance(b, np.ndarray)) or a.shape != b.shape or a.dtype != b.dtype:
+            return False
+        if a.dtype.kind in 'fc' and tol > 0:
+            with np.errstate(all='ignore'):
+                return bool(np.all((np.abs(a - b) <= tol) | (np.isnan(a) & np.isnan(b))))
+        return bool(np.array_equal(a, b, equal_nan=a.dtype.kind in 'fc'))
+    if isinstance(a, (list, tuple)) and isinstance(b, (list, tuple)) and _depth < 4:
+        return len(a) == len(b) and all(same(x, y, tol, _depth + 1) for x, y in zip(a, b))
+    try:
+        if isinstance(a, (float, np.floating)) and isinstance(b, (float, np.floating)):
+            return bool(a == b or (a != a and b != b) or abs(a - b) <= tol)
+        return bool(a == b)
+    except Exception:
+        return a is b
+
+
+def arrays_of(o, _depth=0):
+    if isinstance(o, np.ndarray):
+        return [o]
+    if isinstance(o, (list, tuple)) and _depth < 4:
+        return [x for t in o for x in arrays_of(t, _depth + 1)]
+    return []
+
+
+def scribble(o):
+    """overwrite every writable array reachable from o in place (what a caller may legitimately do with its own result)."""
+    n = 0
+    for a in arrays_of(o):
+        if a.flags.writeable and a.size:
+            a[...] = 7.5 if a.dtype.kind in 'fc' else 7
+            n += 1
+    return n
 
 
 def _isint(x):
@@ -678,15 +728,17 @@ class Mon:
         if D > MAX_REF_DIM:
             ctx.inconclusive('upb_to_bes/skipped-large-dimension')
             return
+        tol = max([self.ptol(f) for f in (factors if factors is not None else [V])])
+        self._lowprec = tol > TOL
         V = V.astype(np.complex128)
         wit = {'N': N, 'D': D, 'dims': list(dims) if dims else None, 'input': 'array' if factors is None else 'factors'}
         res = np.asarray(c.result)
         if not ctx.check(res.shape == (D, D), 'upb_to_bes/shape', 'upb_to_bes: result is not (D, D)', {**wit, 'shape': list(res.shape)}):
             return
         self.w('upb_to_bes/definition', np.abs(res - rc.bes_from_vectors(V)).max())
-        ctx.close(res, rc.bes_from_vectors(V), TOL, 'upb_to_bes/definition', 'upb_to_bes: result is not (I - sum |v><v|)/trace', wit)
+        ctx.close(res, rc.bes_from_vectors(V), tol, 'upb_to_bes/definition', 'upb_to_bes: result is not (I - sum |v><v|)/trace', wit)
         G = V.conj() @ V.T
-        if np.abs(G - np.eye(N)).max() <= 1e-10:  # precondition of the structural clauses: an orthonormal set
+        if np.abs(G - np.eye(N)).max() <= 1e-10 and tol == TOL:  # precondition of the structural clauses: an orthonormal set
             tr = complex(np.trace(res))
             ctx.check(abs(tr - 1) <= TOL, 'upb_to_bes/trace', 'upb_to_bes: trace is not one', {**wit, 'trace': [tr.real, tr.imag]})
             ev = np.linalg.eigvalsh((res + res.conj().T) / 2)
@@ -709,9 +761,11 @@ class Mon:
         if D * factors[0].shape[0] > 4e6:
             self.ctx.inconclusive('get_upb_product/skipped-large')
             return
+        tol = max(1e-14, max(self.ptol(f) for f in factors) if max(self.ptol(f) for f in factors) > TOL else 0.0)
+        self._lowprec = tol > TOL
         ref = rc.kron_rows(factors)
         self.w('get_upb_product/definition', np.abs(np.asarray(c.result) - ref).max() if np.shape(c.result) == ref.shape else np.inf)
-        self.ctx.close(c.result, ref, 1e-14, 'get_upb_product/definition', 'get_upb_product: row k is not the Kronecker product of the k-th factors',
+        self.ctx.close(c.result, ref, tol, 'get_upb_product/definition', 'get_upb_product: row k is not the Kronecker product of the k-th factors',
                        {'shapes': [list(f.shape) for f in factors]})
 
     def post_fourier(self, c):
@@ -858,14 +912,24 @@ def install(ctx, numqi):
         (numqi.utils, 'get_tetrahedron_POVM', mon.post_tetrahedron, 'utils.get_tetrahedron_POVM'),
         (numqi.unique_determine._internal, 'get_chebshev_orthonormal', mon.post_chebyshev, 'unique_determine.get_chebshev_orthonormal'),
     ]
-    def fresh(post):
+    def pre(c):
+        return [snap(a) for a in c.args], {k: snap(v) for k, v in c.kwargs.items()}
+
+    def fresh(post, short):
         def run_post(c):
             mon._lowprec = False
+            if c.snap is not None:
+                sargs, skw = c.snap
+                changed = [i for i, (a, b) in enumerate(zip(c.args, sargs)) if not same(a, b)] + [k for k in skw if not same(c.kwargs[k], skw[k])]
+                ctx.check(not changed, f'{short}/mutates-argument', f'{short}: an argument passed in was modified in place', {'arguments': changed},
+                          point='argument-mutation')
+                # the contract is judged against the arguments as they were at call time
+                c.args, c.kwargs = tuple(sargs), skw
             post(c)
         return run_post
 
     for owner, name, post, point in table:
-        ctx.attach(owner, name, post=fresh(post), point=point)
+        ctx.attach(owner, name, post=fresh(post, name), pre=pre, point=point)
     # coverage statement: every public callable of numqi.state must have a monitor
     public = sorted(n for n in dir(numqi.state) if not n.startswith('_') and callable(getattr(numqi.state, n)))
     unknown = [n for n in public if n not in STATE_COVERED]
@@ -1414,6 +1478,10 @@ def run(ctx, shard):
         run_povm_bases(ctx, numqi, drv, list(range(17, 33)))
     elif name == 'realistic':
         run_realistic(ctx, numqi, drv)
+    elif name == 'histories':
+        run_histories(ctx, numqi, drv)
+    elif name == 'input-kinds':
+        run_input_kinds(ctx, numqi, drv)
     elif name == 'generic-gme':
         run_generic(ctx, numqi, drv, 'gme')
     elif name == 'generic-eof':
@@ -1423,3 +1491,344 @@ def run(ctx, shard):
     else:
         raise ValueError(name)
     ctx.extra['cases_driven'] = drv.n_sampled
+
+
+# =================================================================================================== histories / call order / input kinds
+def history_configs(numqi):
+    """(label, function, args, kwargs) of every monitored constructor with small arguments (deterministic ones only)."""
+    S, E = numqi.state, numqi.entangle
+    cfg = []
+
+    def add(label, f, *args, **kwargs):
+        cfg.append((label, f, args, kwargs))
+
+    for n in (1, 2, 3, 5):
+        add('GHZ', S.GHZ, n)
+        add('W', S.W, n)
+    for i in range(4):
+        add('Bell', S.Bell, i)
+    for kl in [(1, 1), (2, 1), (2, 2), (1, 1, 1), (0, 2, 1), (3, 0)]:
+        add('Dicke', S.Dicke, *kl)
+    for coeff in [np.array([1.0, 2.0, 3.0]), np.array([3, 4]), np.array([1j, 1.0, -1.0, 0.5]), np.array([0.6, 0.8], dtype=np.float32)]:
+        add('Wtype', S.Wtype, coeff)
+    for d in (2, 3, 4):
+        add('maximally_entangled_state', S.maximally_entangled_state, d)
+        add('maximally_mixed_state', S.maximally_mixed_state, d)
+        add('maximally_coherent_state', S.maximally_coherent_state, d)
+        add('maximally_coherent_state', S.maximally_coherent_state, d, True)
+        for a in (-0.3, 1 / d, 0.8, 1.0):
+            add('Werner', S.Werner, d, a)
+            add('get_Werner_ree', S.get_Werner_ree, d, a)
+            add('get_Werner_GME', S.get_Werner_GME, d, a)
+            add('get_Werner_eof', S.get_Werner_eof, d, a)
+        for a in (-1 / (d * d - 1), 1 / (d + 1), 0.7, 1.0):
+            add('Isotropic', S.Isotropic, d, a)
+            add('get_Isotropic_ree', S.get_Isotropic_ree, d, a)
+            add('get_Isotropic_GME', S.get_Isotropic_GME, d, a)
+            add('get_Isotropic_eof', S.get_Isotropic_eof, d, a)
+        add('get_Werner_GME', S.get_Werner_GME, d, np.linspace(-1, 1, 9))
+        add('get_Werner_eof', S.get_Werner_eof, d, np.linspace(-1, 1, 9))
+        add('get_Isotropic_GME', S.get_Isotropic_GME, d, np.linspace(0, 1, 9))
+        add('get_Isotropic_eof', S.get_Isotropic_eof, d, np.linspace(0, 1, 9))
+    for q in (-2.0, 0.0, 0.7, 2.5):
+        add('get_2qutrit_Antoine2022', S.get_2qutrit_Antoine2022, q)
+    for b in (0.0, 0.3, 1.0):
+        add('get_bes2x4_Horodecki1997', S.get_bes2x4_Horodecki1997, b)
+        add('get_bes3x3_Horodecki1997', S.get_bes3x3_Horodecki1997, b)
+    for n, k in [(3, 1), (4, 2), (5, 0), (7, 3)]:
+        add('get_qubit_dicke_state_GME', S.get_qubit_dicke_state_GME, n, k)
+    for abc in [(math.sqrt(1 / 3),) * 3, (0.6, 0.8, 0.0), (0.5, 0.5, math.sqrt(0.5))]:
+        add('get_Wtype_state_GME', S.get_Wtype_state_GME, *abc)
+    for nq in (1, 2):
+        add('get_tetrahedron_POVM', numqi.utils.get_tetrahedron_POVM, nq)
+    for d in (2, 3, 5):
+        add('get_chebshev_orthonormal', numqi.unique_determine.get_chebshev_orthonormal, d, 0.4, True, True)
+        add('get_chebshev_orthonormal', numqi.unique_determine.get_chebshev_orthonormal, d, 1.1)
+    for dim in (3, 5, 13):
+        add('fourier_matrix', E.upb.fourier_matrix, dim)
+    return cfg
+
+
+def upb_configs():
+    six = np.array([1.0, 2.0, 0.5, 4.0, 5.0, 0.25])
+    return [('tiles', None), ('pyramid', None), ('feng4x4', None), ('min4x4', None), ('feng2x2x2x2', None), ('sixparam', six),
+            ('sixparam', np.array([1, 1, 0, 1, 1, 0]) * 3 * np.pi / 4), ('quadres', 3), ('quadres', 7), ('genshifts', 3), ('genshifts', 5),
+            ('gentiles1', 4), ('gentiles1', 6), ('gentiles1', 8), ('gentiles2', (3, 4)), ('gentiles2', (3, 5)), ('gentiles2', (4, 4)), ('gentiles2', (4, 5))]
+
+
+class History:
+    """first-call snapshots per configuration; every later call with equal arguments must reproduce them."""
+
+    def __init__(self, ctx):
+        self.ctx = ctx
+        self.first = {}
+        self.poisoned = {}   # key -> earlier (scribbled) result objects, kept alive on purpose
+
+    def call(self, label, keylabel, f, args, kwargs, poison=True, scribble_args=True):
+        ctx = self.ctx
+        key = core_digest(keylabel, list(args), kwargs)
+        a = copy.deepcopy(args)
+        kw = copy.deepcopy(kwargs)
+        ctx.set_case({'history': label, 'args': list(args), 'kwargs': kwargs, 'nth_call': len(self.poisoned.get(key, [])) + 1})
+        ctx.case('history', label, list(args), kwargs, len(self.poisoned.get(key, [])))
+        res = [None]
+        with ctx.guard(label):
+            res[0] = f(*a, **kw)
+        r = res[0]
+        if r is None:
+            return None
+        ctx.hit('history/repeated-call')
+        wit = {'args': list(args), 'kwargs': kwargs}
+        earlier = self.poisoned.get(key, [])
+        if key in self.first:
+            shares = any(np.shares_memory(x, y) for old in earlier for x in arrays_of(r) for y in arrays_of(old))
+            eq_first = same(r, self.first[key], tol=1e-13)
+            if shares or (not eq_first and any(same(r, old) for old in earlier)):
+                ctx.check(False, f'{label}/result-aliases-earlier-call', f'{label}: the result of a later call with equal arguments is (a view of) the object '
+                          'returned earlier, which the caller had edited in place', wit)
+            else:
+                ctx.check(eq_first, f'{label}/second-call-differs', f'{label}: a later call with equal arguments returns different values', wit)
+        else:
+            self.first[key] = snap(r)
+        if poison:
+            scribble(r)
+            self.poisoned.setdefault(key, []).append(r)
+        if scribble_args:
+            scribble(a)       # a work buffer reused by the caller: must not leak into later calls made with fresh equal arguments
+            scribble(kw.values() if False else list(kw.values()))
+        return r
+
+
+def core_digest(*objs):
+    from vmon import core
+    return core.digest(*objs)
+
+
+def run_histories(ctx, numqi, drv):
+    E = numqi.entangle
+    rng = ctx.rng
+    H = History(ctx)
+    cfg = history_configs(numqi)
+    ctx.extra['history_configurations'] = len(cfg)
+    # (1)+(2): all constructors forward (each twice in a row, the first result edited in place in between), then in reverse
+    # order, then in a random order, then the first configuration once more
+    ctx.workload('corner')
+    for label, f, args, kwargs in cfg:
+        H.call(label, label, f, args, kwargs)
+        H.call(label, label, f, args, kwargs)
+    for label, f, args, kwargs in reversed(cfg):
+        H.call(label, label, f, args, kwargs)
+    for i in rng.permutation(len(cfg)):
+        label, f, args, kwargs = cfg[int(i)]
+        H.call(label, label, f, args, kwargs)
+    label, f, args, kwargs = cfg[0]
+    H.call(label, label, f, args, kwargs)
+    ctx.hit('history/forward-reverse')
+    # UPB kinds: same size twice in a row, then with 1..5 other configurations in between, every flag combination, forward / reverse
+    U = upb_configs()
+    flags = [dict(), dict(return_product=True), dict(return_bes=True), dict(return_product=True, return_bes=True)]
+
+    def load(i, fl):
+        kind, args = U[i]
+        return H.call(f'load_upb/{kind}', 'load_upb', E.load_upb, (kind, args), fl)
+
+    for i in range(len(U)):
+        load(i, flags[0])
+        load(i, flags[0])
+    for i in reversed(range(len(U))):
+        load(i, flags[2])
+    for k in range(1, 6):
+        for i in range(len(U)):
+            others = [int(t) for t in rng.choice([j for j in range(len(U)) if j != i], size=k, replace=False)]
+            # prefer the other sizes of the same kind (shared helper state is most likely there)
+            sib = [j for j in range(len(U)) if j != i and U[j][0] == U[i][0]]
+            others = (sib + others)[:k]
+            fl = flags[(i + k) % 4]
+            load(i, fl)
+            for j in others:
+                load(j, flags[(j + k) % 4])
+            load(i, fl)
+    ctx.hit('history/upb-order')
+    # helpers on the factors of a load, twice, with the factor arrays edited in between (same objects: work-buffer history)
+    for kind, args in U:
+        with ctx.guard('history/upb-helpers'):
+            upb = E.load_upb(kind, args)
+            keep = snap(upb)
+            p1 = E.get_upb_product(upb)
+            b1 = E.upb_to_bes(upb)
+            b1a = E.upb_to_bes(p1)
+            sp1, sb1 = snap(p1), snap(b1)
+            scribble([p1, b1, b1a])
+            p2 = E.get_upb_product(upb)
+            b2 = E.upb_to_bes(upb)
+            ctx.check(same(p2, sp1, 1e-14), 'get_upb_product/second-call-differs', 'get_upb_product: second call on the same factors differs', {'kind': kind})
+            ctx.check(same(b2, sb1, 1e-14), 'upb_to_bes/second-call-differs', 'upb_to_bes: second call on the same factors differs', {'kind': kind})
+            ctx.check(same(upb, keep), 'upb-helpers/mutates-argument', 'get_upb_product / upb_to_bes modified the factors passed in', {'kind': kind})
+            # same list object, new contents: the answer must follow the CURRENT contents (monitors judge against them)
+            other = E.load_upb(*U[(U.index((kind, args)) + 1) % len(U)]) if False else None
+            for fa in upb:
+                fa[...] = fa[::-1].copy()   # permute the members: still a UPB, different product array
+            p3 = E.get_upb_product(upb)
+            E.upb_to_bes(upb)
+            ctx.check(same(p3, sp1[::-1].copy(), 1e-14), 'get_upb_product/stale-after-inplace-update', 'get_upb_product: result does not follow an in-place update of the factors',
+                      {'kind': kind})
+    # work-buffer histories for array arguments of the state constructors and closed forms
+    S = numqi.state
+    buf = np.array([1.0, 2.0, 2.0])
+    for vals in ([1.0, 2.0, 2.0], [0.0, 3.0, 4.0], [5.0, 0.0, 12.0], [1.0, 2.0, 2.0]):
+        buf[:] = vals
+        with ctx.guard('history/Wtype-buffer'):
+            r = S.Wtype(buf)
+            ctx.close(r, rc.wtype(np.array(vals), True), TOL, 'Wtype/stale-after-inplace-update', 'Wtype: result does not follow the current contents of the coefficient buffer', {'coeff': vals})
+            scribble(r)
+    abuf = np.linspace(-1, 1, 7)
+    for shift in (0.0, 0.1, -0.2, 0.0):
+        abuf[:] = np.clip(np.linspace(-1, 1, 7) + shift, -1, 1)
+        for d in (2, 3):
+            for nm in ('get_Werner_GME', 'get_Werner_eof'):
+                with ctx.guard(f'history/{nm}-buffer'):
+                    r = getattr(S, nm)(d, abuf)
+                    ref = np.array([float(getattr(S, nm)(d, float(t))) for t in abuf])
+                    ctx.close(r, ref, 1e-15, f'{nm}/vectorised-differs-from-scalar', f'{nm}: array call differs from element-wise scalar calls', {'d': d, 'alpha': abuf.copy()})
+                    if isinstance(r, np.ndarray):
+                        scribble(r)
+    ctx.hit('history/work-buffer')
+
+
+def run_input_kinds(ctx, numqi, drv):
+    """(4): the same values presented as python / numpy ints, floats, 0-d arrays, other dtypes and memory layouts."""
+    S, E = numqi.state, numqi.entangle
+    ctx.workload('corner')
+
+    def agree(label, base, variants, tol=0.0):
+        """base and variants are thunks; every variant must return what the plain-python call returns."""
+        b = [None]
+        with ctx.guard(label):
+            b[0] = base()
+        for kindname, th in variants:
+            ctx.set_case({'input-kind': label, 'variant': kindname})
+            ctx.case('input-kind', label, kindname)
+            v = [None]
+            with ctx.guard(f'{label}/input-kind/{kindname}'):
+                v[0] = th()
+                ctx.hit('input-kinds')
+                x, y = v[0], b[0]
+                ok = same(snapf(x), snapf(y), tol=max(tol, 1e-15))
+                ctx.check(ok, f'{label}/input-kind-dependent', f'{label}: the result depends on how an equal argument is presented ({kindname})', {'variant': kindname})
+
+    def snapf(o):
+        """values as float64/complex128 arrays (dtype of the container is not part of the claim)."""
+        if isinstance(o, (list, tuple)):
+            return [snapf(t) for t in o]
+        a = np.asarray(o)
+        return a.astype(np.complex128)
+
+    # signed numpy integer types of >= 32 bits (what numpy itself hands out for sizes: len, shape, arange). Unsigned and 8/16-bit integers are not
+    # generated: numpy promotes them to float16 / wraps them (np.sqrt(np.uint8(3)) is float16, 1-np.uint32(2)**2 == 4294967293),
+    # which is numpy arithmetic on the caller's side of the documented `int` parameter, see ASSUMPTIONS
+    ints = [('np.int64', np.int64), ('np.int32', np.int32), ('np.longlong', np.longlong), ('np.intp', np.intp), ('0-d int array', lambda t: np.array(t))]
+    for n in (1, 2, 4):
+        agree('GHZ', lambda: S.GHZ(n), [(k, (lambda c=c: S.GHZ(c(n)))) for k, c in ints])
+        agree('W', lambda: S.W(n), [(k, (lambda c=c: S.W(c(n)))) for k, c in ints[:4]])
+    for i in range(4):
+        agree('Bell', lambda: S.Bell(i), [(k, (lambda c=c: S.Bell(c(i)))) for k, c in ints] + [('float', lambda: S.Bell(float(i)))])
+    agree('Dicke', lambda: S.Dicke(2, 1), [(k, (lambda c=c: S.Dicke(c(2), c(1)))) for k, c in ints] + [('float', lambda: S.Dicke(2.0, 1.0))])
+    for d in (2, 3):
+        agree('maximally_entangled_state', lambda: S.maximally_entangled_state(d), [(k, (lambda c=c: S.maximally_entangled_state(c(d)))) for k, c in ints[:4]])
+        agree('maximally_mixed_state', lambda: S.maximally_mixed_state(d), [(k, (lambda c=c: S.maximally_mixed_state(c(d)))) for k, c in ints[:4]])
+        agree('maximally_coherent_state', lambda: S.maximally_coherent_state(d, True),
+              [(k, (lambda c=c: S.maximally_coherent_state(c(d), np.bool_(True)))) for k, c in ints[:4]] + [('return_dm=1', lambda: S.maximally_coherent_state(d, 1))])
+        scal = [('np.float64', np.float64), ('0-d array', lambda t: np.array(t)), ('np.longdouble->float64', lambda t: np.float64(np.longdouble(t)))]
+        for a in (0.75, -0.25, 1.0, 0.0):
+            for nm in ('Werner', 'Isotropic'):
+                if nm == 'Isotropic' and a < -1 / (d * d - 1):
+                    continue
+                f = getattr(S, nm)
+                agree(nm, lambda: f(d, a), [(k, (lambda c=c: f(d, c(a)))) for k, c in scal] + [(k, (lambda c=c: f(c(d), a))) for k, c in ints[:4]]
+                      + ([('python int alpha', lambda: f(d, int(a)))] if a == int(a) else []), tol=0.0)
+                agree(nm, lambda: f(d, a), [('np.float32 alpha', lambda: f(d, np.float32(a)))], tol=1e-6)
+                for cf in ('ree', 'GME', 'eof'):
+                    g = getattr(S, f'get_{nm}_{cf}')
+                    agree(f'get_{nm}_{cf}', lambda: float(g(d, a)), [(k, (lambda c=c: float(g(d, c(a))))) for k, c in scal] + [(k, (lambda c=c: float(g(c(d), a)))) for k, c in ints[:3]]
+                          + ([('python int alpha', lambda: float(g(d, int(a))))] if a == int(a) else []))
+        # vectorised closed forms: layouts and dtypes of the parameter array; each equals the element-wise scalar calls
+        base = np.linspace(-0.1, 1.0, 12)
+        for nm in ('Werner', 'Isotropic'):
+            for cf in ('GME', 'eof'):
+                g = getattr(S, f'get_{nm}_{cf}')
+                lab = f'get_{nm}_{cf}'
+                wide = np.zeros((12, 3))
+                wide[:, 1] = base
+                variants = [('contiguous', base.copy()), ('strided view', wide[:, 1]), ('reversed view', base[::-1]), ('2-D C order', base.reshape(3, 4).copy()),
+                            ('2-D Fortran order', np.asfortranarray(base.reshape(3, 4))), ('transposed view', base.reshape(3, 4).T), ('read-only', _readonly(base)),
+                            ('0-d', np.array(0.8)), ('shape (1,)', np.array([0.8]))] + ([('python list', [float(t) for t in base])] if cf == 'eof' else []) + [
+                            ('int64 array', np.array([0, 1, 1, 0])), ('int32 array', np.array([1, 0], dtype=np.int32))]
+                for kindname, arr in variants:
+                    ctx.set_case({'input-kind': lab, 'variant': kindname, 'd': d})
+                    ctx.case('input-kind', lab, kindname, d)
+                    with ctx.guard(f'{lab}/input-kind/{kindname}'):
+                        keep = snap(arr)
+                        r = np.asarray(g(d, arr))
+                        ctx.hit('input-kinds')
+                        vals = np.asarray(keep, dtype=np.float64)
+                        ref = np.array([float(g(d, float(t))) for t in vals.reshape(-1)]).reshape(vals.shape)
+                        ctx.close(r, ref, 1e-15, f'{lab}/vectorised-differs-from-scalar', f'{lab}: array call ({kindname}) differs from element-wise scalar calls', {'d': d, 'variant': kindname})
+    for p in (0.0, 0.25, 1.0):
+        for nm in ('get_bes2x4_Horodecki1997', 'get_bes3x3_Horodecki1997'):
+            f = getattr(S, nm)
+            agree(nm, lambda: f(p), [('np.float64', lambda: f(np.float64(p))), ('0-d array', lambda: f(np.array(p)))]
+                  + ([('python int', lambda: f(int(p)))] if p == int(p) else []), tol=0.0)
+            agree(nm, lambda: f(p), [('np.float32', lambda: f(np.float32(p)))], tol=1e-6)
+        agree('get_2qutrit_Antoine2022', lambda: S.get_2qutrit_Antoine2022(p), [('np.float64', lambda: S.get_2qutrit_Antoine2022(np.float64(p))),
+              ('0-d array', lambda: S.get_2qutrit_Antoine2022(np.array(p))), ('np.float32', lambda: S.get_2qutrit_Antoine2022(np.float32(p)))])
+    agree('get_qubit_dicke_state_GME', lambda: S.get_qubit_dicke_state_GME(5, 2), [(k, (lambda c=c: S.get_qubit_dicke_state_GME(c(5), c(2)))) for k, c in ints[:2]]
+          + [('float', lambda: S.get_qubit_dicke_state_GME(5.0, 2.0))], tol=1e-15)
+    agree('get_Wtype_state_GME', lambda: S.get_Wtype_state_GME(0.6, 0.8, 0.0), [('np.float64', lambda: S.get_Wtype_state_GME(np.float64(0.6), np.float64(0.8), np.float64(0.0))),
+          ('0-d arrays', lambda: S.get_Wtype_state_GME(np.array(0.6), np.array(0.8), np.array(0.0))), ('int zero', lambda: S.get_Wtype_state_GME(0.6, 0.8, 0))], tol=1e-15)
+    # Wtype: dtype and layout of the coefficient array (values 3,4,12: exact in every dtype)
+    vals = [3, 4, 12]
+    wide = np.zeros((3, 4))
+    wide[:, 2] = vals
+    agree('Wtype', lambda: S.Wtype(np.array(vals, dtype=np.float64)), [
+        ('int64', lambda: S.Wtype(np.array(vals, dtype=np.int64))), ('int32', lambda: S.Wtype(np.array(vals, dtype=np.int32))),
+        ('uint8', lambda: S.Wtype(np.array(vals, dtype=np.uint8))), ('int8', lambda: S.Wtype(np.array(vals, dtype=np.int8))),
+        ('complex128', lambda: S.Wtype(np.array(vals, dtype=np.complex128))), ('strided view', lambda: S.Wtype(wide[:, 2])),
+        ('reversed twice', lambda: S.Wtype(np.array(vals[::-1], dtype=np.float64)[::-1])), ('read-only', lambda: S.Wtype(_readonly(np.array(vals, dtype=np.float64)))),
+        ('longdouble->float64', lambda: S.Wtype(np.array(vals, dtype=np.longdouble).astype(np.float64)))], tol=0.0)
+    agree('Wtype', lambda: S.Wtype(np.array(vals, dtype=np.float64)), [('float32', lambda: S.Wtype(np.array(vals, dtype=np.float32))),
+                                                                     ('complex64', lambda: S.Wtype(np.array(vals, dtype=np.complex64)))], tol=1e-6)
+    # load_upb size arguments
+    for kind, a, variants in [('quadres', 3, [np.int64(3), np.int32(3), 3.0, np.float64(3.0), np.array(3)]), ('genshifts', 5, [np.int64(5), 5.0, np.array(5)]),
+                              ('gentiles1', 4, [np.int64(4), 4.0, np.int32(4)]),
+                              ('gentiles2', (3, 4), [[3, 4], np.array([3, 4]), (np.int64(3), np.int32(4)), (3.0, 4.0), np.array([3.0, 4.0])]),
+                              ('sixparam', (1.0, 2.0, 0.5, 4.0, 5.0, 0.25), [[1.0, 2.0, 0.5, 4.0, 5.0, 0.25], np.array([1.0, 2.0, 0.5, 4.0, 5.0, 0.25]),
+                                                                             np.array([[1.0, 2.0, 0.5, 4.0, 5.0, 0.25], [0] * 6]).T[:, 0]])]:
+        agree(f'load_upb/{kind}', lambda: E.load_upb(kind, a, return_bes=True), [(type(v).__name__ + ':' + str(getattr(v, 'dtype', '')), (lambda v=v: E.load_upb(kind, v, return_bes=True))) for v in variants])
+    # helpers: layout and dtype of the factors
+    upb = E.load_upb('tiles')
+    cupb = E.load_upb('quadres', 3)
+    for lab, facs in (('real', upb), ('complex', cupb)):
+        layouts = [('C order', [np.ascontiguousarray(f) for f in facs]), ('Fortran order', [np.asfortranarray(f) for f in facs]),
+                   ('transposed view', [np.ascontiguousarray(f.T).T for f in facs]), ('strided view', [np.repeat(f, 2, axis=1)[:, ::2] for f in facs]),
+                   ('tuple of factors', tuple(facs)), ('read-only', [_readonly(f) for f in facs])]
+        agree(f'get_upb_product', lambda: E.get_upb_product([f.copy() for f in facs]), [(f'{lab}/{k}', (lambda v=v: E.get_upb_product(v))) for k, v in layouts], tol=1e-15)
+        agree(f'upb_to_bes', lambda: E.upb_to_bes([f.copy() for f in facs]), [(f'{lab}/{k}', (lambda v=v: E.upb_to_bes(v))) for k, v in layouts], tol=1e-15)
+        prod = E.get_upb_product(list(facs))
+        agree(f'upb_to_bes', lambda: E.upb_to_bes(prod.copy()), [(f'{lab}/array Fortran order', lambda: E.upb_to_bes(np.asfortranarray(prod))),
+              (f'{lab}/array strided view', lambda: E.upb_to_bes(np.repeat(prod, 2, axis=1)[:, ::2])), (f'{lab}/array read-only', lambda: E.upb_to_bes(_readonly(prod)))], tol=1e-15)
+    agree('upb_to_bes', lambda: E.upb_to_bes([f.astype(np.float64) for f in upb]), [('float32 factors', lambda: E.upb_to_bes([f.astype(np.float32) for f in upb]))], tol=1e-5)
+    agree('upb_to_bes', lambda: E.upb_to_bes([f.astype(np.complex128) for f in cupb]), [('complex64 factors', lambda: E.upb_to_bes([f.astype(np.complex64) for f in cupb]))], tol=1e-5)
+    agree('upb_to_bes', lambda: E.upb_to_bes([f.astype(np.float64) for f in upb]), [('real factors as complex128', lambda: E.upb_to_bes([f.astype(np.complex128) for f in upb]))], tol=1e-15)
+    for nq in (1, 2):
+        agree('get_tetrahedron_POVM', lambda: numqi.utils.get_tetrahedron_POVM(nq), [(k, (lambda c=c: numqi.utils.get_tetrahedron_POVM(c(nq)))) for k, c in ints[:4]])
+    f = numqi.unique_determine.get_chebshev_orthonormal
+    for d in (2, 4):
+        agree('get_chebshev_orthonormal', lambda: f(d, 1.0, True, True), [(k, (lambda c=c: f(c(d), 1.0, True, True))) for k, c in ints[:4]]
+              + [('python int alpha', lambda: f(d, 1, True, True)), ('np.float64 alpha', lambda: f(d, np.float64(1.0), True, True)), ('0-d alpha', lambda: f(d, np.array(1.0), True, True)),
+                 ('numpy bool flags', lambda: f(d, 1.0, np.bool_(True), np.bool_(True)))])
+
+
+def _readonly(a):
+    a = np.array(a, copy=True)
+    a.flags.writeable = False
+    return a
